@@ -32,8 +32,8 @@ def normalise_loop(body):
 
 class C10(PropBase):
     pid = "C10"
-    coq_dirs = ["Base", "C08", "C11", "C09", "C10"]
-    translators = []
+    coq_dirs = ["Base", "Gen", "C08", "C11", "C09", "C10"]
+    translators = ["symfile_loop.py"]
     bins = ["c10"]
     impl_timeout = 600
     rule = ("case = input bytes (run-length encoded) + reader schedule (sizes of successive read() results); exhaustive: every single "
@@ -147,6 +147,7 @@ class C10(PropBase):
                 lines += G.gen_lines(rng, rng.below(3))[1:]
             data = G.join(rng, lines, final_nl=not rng.chance(1, 4))
             add("long>=80K", data, G.sched_random(rng, len(data), style=rng.choice([1, 2, 3, 5])))
+        self._dist = dist
         return cases, dist, True
 
     def corpus(self):
@@ -189,6 +190,7 @@ class C10(PropBase):
 
     def extra(self, ctx):
         """parse_async must stay the textual twin of parse (it is not modelled separately)."""
+        G.record_features(self, ctx)
         src = open(os.path.join(REPO, "breakpad-symbols/src/sym_file/mod.rs")).read()
         try:
             a = normalise_loop(loop_body(src, "pub fn parse<"))
